@@ -254,6 +254,9 @@ func MakeFiller(p *Plan, src string) node.Filler {
 			if c.LogMax > 0 {
 				nlogs = r.IntN(c.LogMax + 1)
 			}
+			if nlogs < c.MinLogs {
+				nlogs = c.MinLogs
+			}
 			for li := 0; li < nlogs && len(c.Events) > 0; li++ {
 				es := c.Events[r.IntN(len(c.Events))]
 				l := node.Log{Idx: logIdx}
